@@ -219,7 +219,9 @@ def run(ctx):
     ctx.require(fwd is not None and fwp is not None, 'OPWKinematics::forward / forward_with_joint_poses')
     ctx.fn(fwd)
     ctx.fn(fwp)
-    ring = algebra.Ring(unit_square=sign_atom)
+    # sign corrections are -1, 0 or +1 (0 blocks J6 of a 5-DOF robot): s^3 = s holds for all of them, s^2 = 1 does not, so two
+    # joint maps that agree only under s^2 = 1 (e.g. s*(j - s*o) versus j*s - o) are told apart
+    ring = algebra.Ring(unit_square=lambda a: 'cube' if sign_atom(a) else False)
     joints_t = algebra.canon(('param', 2, 'joints'))
 
     # ---- R03.3 forward
